@@ -1,7 +1,7 @@
 /-
   Decimal exponent and six-digit rounding: lemmas used by C20 (fmt6) and C17 (Round).
 -/
-import LpModel.C20
+import LpModel.C17.Dec
 import Mathlib.Tactic.Linarith
 import Mathlib.Tactic.Positivity
 import Mathlib.Tactic.Ring
